@@ -625,7 +625,7 @@ impl<E: Elem> World<E> {
         }
         self.refs[r] = Some((dorder, drf));
         let _ = sorder;
-        if !E::ZST && E::KIND == "tok" {
+        if E::COUNTED {
             let block = (br * bc) as u64;
             if after.cloned - before.cloned != block || after.dropped - before.dropped != block || after.created != before.created {
                 out.oracle_fail(&format!("{op}: block of {block} elements, but {} clones and {} drops", after.cloned - before.cloned, after.dropped - before.dropped));
@@ -653,6 +653,80 @@ impl<E: Elem> World<E> {
 }
 
 /// elementwise operations exist for token matrices only (they need the symbolic operators)
+impl<E: Elem + Send + Sync> World<E> {
+    /// `iter r variant pattern` for element types without identity (zero-sized ones): the same
+    /// operation line as the token version; oracle: one item per element, and for the indexed
+    /// variants every position exactly once (elements are indistinguishable, positions are not)
+    pub fn iter_anon(&mut self, out: &mut Out, r: usize, variant: &str, pattern: &str) {
+        use matreex::parallel::*;
+        use matreex::Index;
+        let op = format!("iter {r} {variant} {pattern}");
+        out.announce(&op);
+        let pat: Vec<char> = if pattern == "-" { Vec::new() } else { pattern.chars().collect() };
+        fn consume<I: ExactSizeIterator + DoubleEndedIterator>(mut it: I, pat: &[char]) -> Vec<(usize, I::Item)> {
+            let mut items = Vec::new();
+            let mut p = pat.iter();
+            loop {
+                let len = it.len();
+                let x = match p.next() { Some('B') => it.next_back(), _ => it.next() };
+                match x { Some(v) => items.push((len, v)), None => break }
+                if items.len() > 1_000_000 { break; }
+            }
+            items
+        }
+        let with_index = variant.contains("wi");
+        let consuming = variant.starts_with("into");
+        let (_, rf) = self.refs[r].clone().unwrap();
+        let before = snapshot();
+        let mut got: Vec<(usize, Option<Index>, String)> = Vec::new();
+        let res = {
+            let regs = &mut self.regs;
+            catch(|| match variant {
+                "elems" => { let m = regs[r].as_ref().unwrap(); got = consume(m.iter_elements(), &pat).into_iter().map(|(l, e)| (l, None, e.show())).collect(); }
+                "elems_mut" => { let m = regs[r].as_mut().unwrap(); got = consume(m.iter_elements_mut(), &pat).into_iter().map(|(l, e)| (l, None, e.show())).collect(); }
+                "into" => { let m = regs[r].take().unwrap(); got = consume(m.into_iter_elements(), &pat).into_iter().map(|(l, e)| (l, None, e.show())).collect(); }
+                "wi" => { let m = regs[r].as_ref().unwrap(); got = consume(m.iter_elements_with_index(), &pat).into_iter().map(|(l, (i, e))| (l, Some(i), e.show())).collect(); }
+                "wi_mut" => { let m = regs[r].as_mut().unwrap(); got = consume(m.iter_elements_mut_with_index(), &pat).into_iter().map(|(l, (i, e))| (l, Some(i), e.show())).collect(); }
+                "into_wi" => { let m = regs[r].take().unwrap(); got = consume(m.into_iter_elements_with_index(), &pat).into_iter().map(|(l, (i, e))| (l, Some(i), e.show())).collect(); }
+                "par" => { let m = regs[r].as_ref().unwrap(); let v: Vec<&E> = m.par_iter_elements().collect(); let n = v.len(); got = v.into_iter().enumerate().map(|(k, e)| (n - k, None, e.show())).collect(); }
+                "par_mut" => { let m = regs[r].as_mut().unwrap(); let v: Vec<&mut E> = m.par_iter_elements_mut().collect(); let n = v.len(); got = v.into_iter().enumerate().map(|(k, e)| (n - k, None, e.show())).collect(); }
+                "into_par" => { let m = regs[r].take().unwrap(); let v: Vec<E> = m.into_par_iter_elements().collect(); let n = v.len(); got = v.into_iter().enumerate().map(|(k, e)| (n - k, None, e.show())).collect(); }
+                "par_wi" => { let m = regs[r].as_ref().unwrap(); let v: Vec<(Index, &E)> = m.par_iter_elements_with_index().collect(); let n = v.len(); got = v.into_iter().enumerate().map(|(k, (i, e))| (n - k, Some(i), e.show())).collect(); }
+                "par_wi_mut" => { let m = regs[r].as_mut().unwrap(); let v: Vec<(Index, &mut E)> = m.par_iter_elements_mut_with_index().collect(); let n = v.len(); got = v.into_iter().enumerate().map(|(k, (i, e))| (n - k, Some(i), e.show())).collect(); }
+                "into_par_wi" => { let m = regs[r].take().unwrap(); let v: Vec<(Index, E)> = m.into_par_iter_elements_with_index().collect(); let n = v.len(); got = v.into_iter().enumerate().map(|(k, (i, e))| (n - k, Some(i), e.show())).collect(); }
+                _ => unreachable!(),
+            })
+        };
+        if consuming { self.refs[r] = None; self.regs[r] = None; }
+        let after = snapshot();
+        let size = rf.nrows * rf.ncols;
+        if res.is_none() {
+            out.oracle_fail(&format!("{op}: iteration over {} elements panicked", E::KIND));
+        } else {
+            if got.len() != size { out.oracle_fail(&format!("{op}: {} items for {size} elements", got.len())); }
+            if with_index {
+                let mut seen = std::collections::HashSet::new();
+                for (_, idx, _) in &got {
+                    let i = idx.unwrap();
+                    if i.row >= rf.nrows || i.col >= rf.ncols { out.oracle_fail(&format!("{op}: index ({}, {}) outside the {}x{} matrix", i.row, i.col, rf.nrows, rf.ncols)); }
+                    if !seen.insert((i.row, i.col)) { out.oracle_fail(&format!("{op}: position ({}, {}) reported twice", i.row, i.col)); }
+                }
+            }
+            if E::COUNTED {
+                let dropped = after.dropped - before.dropped;
+                let want = if consuming { size as u64 } else { 0 };
+                if dropped != want || after.cloned != before.cloned { out.oracle_fail(&format!("{op}: {dropped} elements dropped and {} cloned, expected {want} and 0", after.cloned - before.cloned)); }
+            }
+        }
+        let items: Vec<String> = got.iter().map(|(l, idx, val)| match idx {
+            Some(i) if with_index => format!("{l}:{}.{}={val}", i.row, i.col),
+            _ => format!("{l}:{val}"),
+        }).collect();
+        out.observe(&if res.is_some() { format!("ok [{}]", items.join(",")) } else { "panic".to_string() });
+        if !consuming { self.check_reg(out, r, &op); }
+    }
+}
+
 impl World<Tok> {
     /// reference result of an elementwise combination, or None when the shapes differ
     fn ew_ref(&self, a: usize, b: usize, f: &dyn Fn(&str, &str) -> String) -> Option<Ref> {
